@@ -80,6 +80,7 @@ type StepCtx struct {
 }
 
 func (sc *StepCtx) IsBlock() bool { return sc.Step.Kind == "block" }
+func (sc *StepCtx) IsRestart() bool { return sc.Step.Kind == "restart" }
 func (sc *StepCtx) IsMsg() bool   { return sc.Step.Kind == "msg" }
 func (sc *StepCtx) Accepted() bool { return sc.Res.OK }
 func (sc *StepCtx) opKind() string {
@@ -148,6 +149,10 @@ type CtxTimeline struct {
 	Gone       bool
 	FirstChecked bool
 	RunningAtCreateBlockEnd bool
+	Killed     bool     // an accepted kill was observed
+	KilledIdx  int      // step at which it was observed
+	Restarted  bool     // went through a zero-height restart: lifecycle bounds are not judged across it
+	Providers  []string // providers as named by the consumer (create / accepted update), hex
 }
 
 type Mon struct {
